@@ -237,6 +237,16 @@ class Exec:
             raise Unsupported('expression ' + ast.dump(e)[:160])
         return m(e, env)
 
+    def _class_assigns_field(self, clsname, name):
+        ci = self.classes.get(clsname)
+        node = getattr(ci, 'node', None)
+        if node is None:
+            return False
+        for n in ast.walk(node):
+            if isinstance(n, ast.Attribute) and n.attr == name and isinstance(n.ctx, ast.Store) and isinstance(n.value, ast.Name) and n.value.id == 'self':
+                return True
+        return False
+
     def e_Constant(self, e, env):
         return e.value
 
@@ -856,6 +866,10 @@ class Exec:
                         return r
             if default is not NOTHANDLED:
                 return default
+            if o.cls in self.classes and self._class_assigns_field(o.cls, name):
+                # the real class keeps this field, the state the contract describes does not know it (e.g. a field a change introduced): the contract no longer
+                # binds to the source - a limit of the checker, never an AttributeError of the code
+                raise Unsupported(f'contract no longer binds: field {o.cls}.{name} is assigned by the class but is not part of the state the contract describes')
             raise ExcSig('AttributeError', f'{o.cls}.{name}')
         if isinstance(o, ClassRef):
             m = self.class_member(o.name, name)
